@@ -9,14 +9,17 @@
      - hence AnalyzedSource::new up to the tree always returns (C02_new_tree_total);
      - table construction never reaches "'main' must be a procedure", semantic analysis never reaches
        "Named declaration without entry", and the only panic site the rest of AnalyzedSource::new can
-       reach is the assert of Identifier::to_error (C02_new_doc_sites); its unreachability and the
-       totality of errors() are in Proofs/RangeProofs*.v when present (see DESIGN.md);
+       reach is the assert of Identifier::to_error - which is unreachable too, because every identifier
+       node the parser creates has a non-empty range (C02_new_doc_total: AnalyzedSource::new never panics);
+     - every diagnostic range collected from the tree lies inside the token vector, so the index and
+       slice expressions of AnalyzedSource::errors() never panic, and every published byte range lies
+       inside the document (C02_errors_total, C02_errors_inside, C02_analysis_total);
      - along every edit history the lexer part of AnalyzedSource::update never panics (C01_lexer_total).
    The incremental parser CAN panic after edits (known finding C01-incparse, class: predicted by the
    model); request handlers are covered per feature (C12-C17) and by the check's request fuzz.
    Process liveness, stack depth and allocation are observed by the check, not proved. *)
 From Spl Require Import Model.Lexer Model.Parser Model.Update Model.Errors Proofs.LexerProofs Proofs.ParserTotal
-  Proofs.ParserProofs Proofs.PipelineProofs Proofs.SemProofs.
+  Proofs.ParserProofs Proofs.PipelineProofs Proofs.SemProofs Proofs.RangeProofs.
 
 Theorem C02_lex_total : forall s : text, exists toks, lex s = Some toks.
 Proof. exact lex_total. Qed.
@@ -45,6 +48,29 @@ Print Assumptions C02_build_main.
 Theorem C02_analyze_entries : forall p0 p t, build_res p0 = ROk (p, t) -> analyze_res p t <> RFail SiteNoEntry.
 Proof. exact analyze_after_build_has_entries. Qed.
 Print Assumptions C02_analyze_entries.
+
+(* AnalyzedSource::new never panics *)
+Theorem C02_new_doc_total : forall t, exists d, new_doc_res t = ODone d.
+Proof. exact new_doc_total. Qed.
+Print Assumptions C02_new_doc_total.
+
+(* AnalyzedSource::errors() never panics on an analysed document *)
+Theorem C02_errors_total : forall t d, new_doc_res t = ODone d -> exists l, doc_errors_res d = ROk l.
+Proof. exact doc_errors_total. Qed.
+Print Assumptions C02_errors_total.
+
+(* ... and every published range lies inside the document *)
+Theorem C02_errors_inside : forall t d l,
+  new_doc_res t = ODone d -> doc_errors_res d = ROk l ->
+  Forall (fun y => (fst (fst y) <= snd (fst y) <= blen t)%N) l.
+Proof. exact errors_inside. Qed.
+Print Assumptions C02_errors_inside.
+
+Theorem C02_analysis_total : forall t,
+  exists d l, new_doc_res t = ODone d /\ doc_errors_res d = ROk l /\
+              Forall (fun y => (fst (fst y) <= snd (fst y) <= blen t)%N) l.
+Proof. exact analysis_total. Qed.
+Print Assumptions C02_analysis_total.
 
 (* non-vacuity: a broken text is analysed to a tree *)
 Example C02_example :
